@@ -45,7 +45,7 @@ def case(ctx, i, rec):
         ts, r = zoo.sim(rng, n=int(rng.integers(2, 7)), mut_per_edge=float(rng.choice([0.3, 1.0, 3.0])))
     Ne = r.get("Ne", 100.0)
     mu = common.default_mu(ts, r)
-    eps = float(rng.choice([1e-8, 1e-6, 1e-3, 0.05 * Ne]))
+    eps = float(rng.choice([0.0, 1e-8, 1e-6, 1e-3, 0.05 * Ne]))
     kw = dict(mutation_rate=mu, eps=eps)
     mode = int(rng.integers(3))
     grid = None
